@@ -32,6 +32,22 @@ impl<T> EnumSet<T> {
 	{ unimplemented!() }
 }
 
+// further enumset operations (not used by the pinned code; declared so that a change which uses them is judged by the
+// contracts instead of being rejected by the type checker)
+impl<T> EnumSet<T> {
+	#[verifier::external_body] pub fn contains(&self, value: T) -> (r: bool) ensures r == self@.contains(value) { unimplemented!() }
+	#[verifier::external_body] pub fn insert(&mut self, value: T) -> (r: bool) ensures r == !old(self)@.contains(value), final(self)@ == old(self)@.insert(value) { unimplemented!() }
+	#[verifier::external_body] pub fn new() -> (r: Self) ensures r@ == Set::<T>::empty() { unimplemented!() }
+	#[verifier::external_body] pub fn empty() -> (r: Self) ensures r@ == Set::<T>::empty() { unimplemented!() }
+	#[verifier::external_body] pub fn only(value: T) -> (r: Self) ensures r@ == Set::<T>::empty().insert(value) { unimplemented!() }
+	#[verifier::external_body] pub fn is_empty(&self) -> (r: bool) ensures r == (self@ == Set::<T>::empty()) { unimplemented!() }
+	#[verifier::external_body] pub fn clear(&mut self) ensures final(self)@ == Set::<T>::empty() { unimplemented!() }
+	#[verifier::external_body] pub fn difference(&self, o: Self) -> (r: Self) ensures r@ == self@.difference(o@) { unimplemented!() }
+	#[verifier::external_body] pub fn intersection(&self, o: Self) -> (r: Self) ensures r@ == self@.intersect(o@) { unimplemented!() }
+	#[verifier::external_body] pub fn union(&self, o: Self) -> (r: Self) ensures r@ == self@.union(o@) { unimplemented!() }
+}
+impl<T> Copy for EnumSet<T> {}
+
 // (2) Opaque stand-ins for the field types of `enum Declaration` that `export` only clones or drops
 //     (DESIGN.md 2.2 item 4); their derived `Clone` is assumed to be the identity.
 #[verifier::external_body] pub struct Location { _p: u8 }
